@@ -112,25 +112,26 @@ Qed.
 (* ---- fn write_all -------------------------------------------------------------------- *)
 Lemma g_write_all_eq raw s buf : conv_u (g_write_all raw s buf) = ss_write_all s buf raw.
 Proof.
-  unfold g_write_all, ss_write_all, sbi_new.
-  match goal with |- context [while_fuel _ ?f _] => set (step := f) end.
-  assert (L : forall fuel bs off st u w,
-             conv_u (match while_fuel fuel step ((bs, off), w, mkSB st u) with
-                     | Some (inl (_, raw3, state3)) => Some (raw3, state3, inl tt)
-                     | Some (inr ((_, raw4, state4), rv)) => Some (raw4, state4, rv)
-                     | None => None
-                     end) = ss_write_all_loop fuel bs off st u w).
+  (* as for g_write_eq: combinator, step, initial tuple and continuation are read off the goal *)
+  destruct s as [st0 u0].
+  unfold g_write_all, ss_write_all, sbi_new. cbv zeta. cbn [sb_state sb_u].
+  match goal with
+  | |- conv_u (match ?W ?fuel0 ?f ?init with Some x => @?K x | None => None end) = _ =>
+      let p := eval pattern (buf, 0), raw, (mkSB st0 u0) in init in
+      match p with
+      | ?mk _ _ _ =>
+          assert (L : forall fuel bs off st u w,
+                     conv_u (match W fuel f (mk (bs, off) w (mkSB st u)) with Some x => K x | None => None end)
+                     = ss_write_all_loop fuel bs off st u w)
+      end
+  end.
   { induction fuel as [|fuel IH]; intros bs off st u w; [reflexivity|].
-    cbn [while_fuel ss_write_all_loop]. unfold step at 1. unfold sbi_next. cbn [fst snd sb_state sb_u].
+    cbn [while_fuel while_fuel0 ss_write_all_loop]. unfold sbi_next. cbn [fst snd sb_state sb_u].
     destruct (next_bytes bs off st u) as [[[[[p bs'] off'] st'] u']|]; [|reflexivity].
     destruct p as [pc|]; [|reflexivity].
     unfold ss_raw_write_all. destruct (w_write_all w (p_bytes pc)) as [w1 r]. destruct r as [q|e]; [|reflexivity].
     apply IH. }
-  specialize (L (S (length buf)) buf 0 (sb_state s) (sb_u s) raw).
-  destruct s as [st u]. cbn [sb_state sb_u] in *.
-  rewrite <- L.
-  destruct (while_fuel (S (length buf)) step (buf, 0, raw, {| sb_state := st; sb_u := u |})) as [[[[? ?] ?]|[[[? ?] ?] ?]]|];
-    reflexivity.
+  apply (L (S (length buf)) buf 0 st0 u0 raw).
 Qed.
 
 (* ---- fn write_fmt ---------------------------------------------------------------------- *)
